@@ -221,11 +221,20 @@ def parse_obs(txt):
         out[cid] = [d[k] for k in sorted(d)]
     return out, stray
 
+def _big_stack():
+    """the extracted model recurses over lists: give the child the largest stack the system allows"""
+    try:
+        import resource
+        soft, hard = resource.getrlimit(resource.RLIMIT_STACK)
+        resource.setrlimit(resource.RLIMIT_STACK, (hard, hard))
+    except Exception:
+        pass
+
 def run_side(exe, stream, casefile, timeout=900, extra_env=None):
     env = dict(ENV)
     if extra_env: env.update(extra_env)
     try:
-        p = subprocess.run([exe, stream, casefile], env=env, stdout=subprocess.PIPE, stderr=subprocess.PIPE, timeout=timeout)
+        p = subprocess.run([exe, stream, casefile], env=env, stdout=subprocess.PIPE, stderr=subprocess.PIPE, timeout=timeout, preexec_fn=_big_stack)
         return p.returncode, p.stdout.decode('utf-8', 'replace'), p.stderr.decode('utf-8', 'replace')
     except subprocess.TimeoutExpired as ex:
         return -9, (ex.stdout or b'').decode('utf-8', 'replace'), 'timeout'
